@@ -49,7 +49,8 @@ Conform(k) == LET r == E[k] IN DAct(r.act) /\ Match(r) /\ drift' = FALSE
 Resync(k) ==
   LET r == E[k] a == r.act IN
   /\ ~ENABLED (DAct(a) /\ Match(r))
-  /\ drift' = TRUE /\ exists' = PEx(r) /\ value' = PVal(r) /\ level' = PLev(r)
+  /\ drift' = TRUE /\ exists' = PEx(r) /\ value' = PVal(r)
+  /\ level' = (IF a.op = "set_expression" /\ exists[a.g] THEN [PLev(r) EXCEPT ![a.g][a.n] = a.l] ELSE PLev(r))      \* a commanded expression level is given, not observed
   /\ lastOld' = (IF a.op \in {"mutate", "rollback"} /\ r.obs.dappr = 1 THEN [lastOld EXCEPT ![a.g][a.n] = value[a.g][a.n]]
                  ELSE IF a.op = "replicate" THEN [lastOld EXCEPT !["c"] = [n \in Genes |-> IF n \in DOMAIN a.muts /\ M!Auth(n, a.muts[n]) THEN value["p"][n] ELSE NoVal]]
                  ELSE lastOld)
